@@ -73,7 +73,7 @@ def r1(ctx):
         a0 = u(a0n) if a0n is not None else ""
         ctx.check(a0 == f"{f.params[1]} + self.compiler.options", "config:ArgumentParser.parse_args:argv-then-implicit", f"the vector parsed must be the command's arguments followed by the compiler's implicit options: {a0}", f.loc(pk[0]))
     warn = [s for s in walk_no_nested(f.node) if isinstance(s, ast.If) and u(s.test) == "unrecognized" and any(isinstance(x, ast.Call) and u(x.func) == "log.warning" for x in ast.walk(s))]
-    ctx.check(len(warn) == 1, "config:ArgumentParser.parse_args:unrecognized-warned", "unrecognised arguments must be reported with a warning", f.loc())
+    ctx.soft(len(warn) == 1, "config:ArgumentParser.parse_args:unrecognized-warned", "unrecognised arguments must be reported with a warning", f.loc())
     # namespace initialised with fresh lists
     for name in ("defines", "include_paths", "include_files", "modes", "passes"):
         ok = any(isinstance(s, ast.Assign) and u(s.targets[0]) == f"namespace.{name}" and isinstance(s.value, ast.List) and not s.value.elts for s in f.node.body)
@@ -81,7 +81,7 @@ def r1(ctx):
     # the positional catch-all
     pos = [r for r in regs if r[0] and not r[0][0].startswith("-")]
     ok = len(pos) == 1 and const(pos[0][1].get("nargs")) == "*"
-    ctx.check(ok, "config:ArgumentParser.parse_args:positional-files", "positional arguments (source files) must be absorbed with nargs='*'", f.loc())
+    ctx.soft(ok, "config:ArgumentParser.parse_args:positional-files", "positional arguments (source files) must be absorbed with nargs='*'", f.loc())
     ctx.floor(3 + 3 + 3 + 5)
 
 
@@ -176,7 +176,7 @@ def r4(ctx):
             k = const(s.targets[0].slice)
             ctx.check(k in ("file", "include_paths"), f"config:load_database:entry-store:{u(s.targets[0].slice)}", f"`{u(s)[:80]}` rewrites an extracted option list: defines and forced includes must reach the preprocessor exactly as given on the command line (a -include value is searched like a quote include, it is not a path relative to the build directory)", ld.loc(s))
     ent = [s for s in walk_no_nested(ld.node) if isinstance(s, ast.Assign) and u(s.targets[0]) == "entry"]
-    ctx.check(len(ent) == 1 and u(ent[0].value) == "asdict(preprocessor_config)", "config:load_database:entry-from-config", "each entry must be the parsed configuration as a dict", ld.loc())
+    ctx.soft(len(ent) == 1 and u(ent[0].value) == "asdict(preprocessor_config)", "config:load_database:entry-from-config", "each entry must be the parsed configuration as a dict", ld.loc())
     ctx.floor(2 + 4 + 3)
 
 
